@@ -27,6 +27,8 @@ pub enum FK {
     AssocA,
     AssocBQualified,
     VecOfAssoc,
+    /// `P::Gen` — an associated type that carries the same name as the deriving type
+    AssocSelfNamed,
     RefA,
     SliceB,
     /// `#[codec(compact)] x: P`
@@ -130,7 +132,7 @@ impl GCase {
             .collect()
     }
     fn uses_assoc(&self, p: u8) -> bool {
-        self.norm_fields().iter().any(|f| f.param == p && matches!(f.kind, FK::AssocA | FK::AssocBQualified | FK::VecOfAssoc))
+        self.norm_fields().iter().any(|f| f.param == p && matches!(f.kind, FK::AssocA | FK::AssocBQualified | FK::VecOfAssoc | FK::AssocSelfNamed))
     }
     fn uses_compact(&self, p: u8) -> bool {
         self.norm_fields().iter().any(|f| f.param == p && f.kind == FK::Compact)
@@ -175,6 +177,7 @@ impl GCase {
             FK::AssocA => format!("{p}::A"),
             FK::AssocBQualified => format!("<{p} as Tr>::B"),
             FK::VecOfAssoc => format!("Vec<{p}::A>"),
+            FK::AssocSelfNamed => format!("[{p}::{}; 2]", self.type_name()),
             FK::RefA => format!("&'a {p}"),
             FK::SliceB => format!("&'b [{p}]"),
             FK::SkippedNoInfoOf => format!("NoInfo2<{p}>"),
@@ -302,6 +305,7 @@ impl GCase {
                 match f.kind {
                     FK::AssocA | FK::VecOfAssoc => b.push(format!("{p}::A: TypeInfo + 'static")),
                     FK::AssocBQualified => b.push(format!("<{p} as Tr>::B: TypeInfo + 'static")),
+                    FK::AssocSelfNamed => b.push(format!("{p}::{}: TypeInfo + 'static", self.type_name())),
                     FK::Compact => b.push(format!("{p}: parity_scale_codec::HasCompact")),
                     _ => {}
                 }
@@ -426,25 +430,27 @@ impl GCase {
         let mut s = crate::ast::PRELUDE.replace("BITVEC_USE", "");
         s.push_str(
             r#"
-pub trait Tr { type A; type B; }
+pub trait Tr { type A; type B; type SELFNAME; }
 pub trait Bnd {}
 /// types without type info
 #[derive(Clone)] pub struct NoInfo;
 #[derive(Clone)] pub struct NoInfo2<X>(pub X);
 #[derive(Clone)] pub struct NoInfoT;
-impl Tr for NoInfoT { type A = u8; type B = String; }
+impl Tr for NoInfoT { type A = u8; type B = String; type SELFNAME = u16; }
 impl Bnd for NoInfoT {}
 #[derive(Clone, TypeInfo)] pub struct HasInfo;
-impl Tr for HasInfo { type A = u32; type B = Vec<u16>; }
+impl Tr for HasInfo { type A = u32; type B = Vec<u16>; type SELFNAME = Option<u8>; }
 impl Bnd for HasInfo {}
 #[derive(Clone, TypeInfo, Encode, Decode, CompactAs)] pub struct CompactTr(pub u32);
-impl Tr for CompactTr { type A = u64; type B = (u8, u8); }
+impl Tr for CompactTr { type A = u64; type B = (u8, u8); type SELFNAME = bool; }
 impl Bnd for CompactTr {}
 impl Bnd for u8 {} impl Bnd for u32 {} impl Bnd for u64 {} impl Bnd for String {} impl Bnd for Vec<u8> {} impl Bnd for Option<u32> {} impl Bnd for (u8, bool) {}
 #[derive(Clone, TypeInfo)] pub struct Other<X>(pub Vec<X>);
 fn assert_type_info<X: TypeInfo + 'static>() {}
 "#,
         );
+        let s2 = s.replace("SELFNAME", self.type_name());
+        let mut s = s2;
         s.push_str(&self.definition(with_derive));
         s.push_str("fn main() {\n");
         if with_derive {
@@ -547,7 +553,7 @@ pub fn generics_body(c: &GCase, obs: &mut Obs) -> Result<(), String> {
 fn fk() -> impl Strategy<Value = FK> {
     prop::sample::select(vec![
         FK::Direct, FK::Direct, FK::VecOf, FK::OptionOf, FK::TupleWith, FK::Array3, FK::ArrayN, FK::BoxOf, FK::MapValue, FK::Phantom, FK::Phantom, FK::AssocA, FK::AssocBQualified,
-        FK::VecOfAssoc, FK::RefA, FK::SliceB, FK::Compact, FK::SkippedNoInfoOf, FK::SkippedNoInfo, FK::Plain, FK::SelfBox, FK::SelfVec, FK::OtherGeneric, FK::CowLt,
+        FK::VecOfAssoc, FK::AssocSelfNamed, FK::RefA, FK::SliceB, FK::Compact, FK::SkippedNoInfoOf, FK::SkippedNoInfo, FK::Plain, FK::SelfBox, FK::SelfVec, FK::OtherGeneric, FK::CowLt,
     ])
 }
 
